@@ -33,6 +33,7 @@ import Driver.Suites.Policy
 import Driver.Suites.InfoDL
 import Driver.Suites.Magnet
 import Driver.Suites.Adopt
+import Driver.Suites.Picker
 /-! Table of suites known to the driver.  One line per suite (merge=union friendly). -/
 namespace Driver
 def registry : List Suite := [
@@ -78,5 +79,6 @@ def registry : List Suite := [
   Suites.InfoDL.suite,
   Suites.Magnet.suite,
   Suites.Adopt.suite,
+  Suites.Picker.suite,
 ]
 end Driver
